@@ -46,6 +46,10 @@ pub fn run_hist_plans(rep: &mut Report, id: &str, plans: Vec<HistPlan>)
     let mut nontrivial = 0u64;
     for p in plans
     {
+        // debugging aids: RVF_ONLY=<substring of a scenario name>, RVF_ORDERED=1 forces order-sensitive keys
+        if let Ok(only) = std::env::var("RVF_ONLY") { if !p.scenario.name.contains(&only) { continue; } }
+        let mut p = p;
+        if std::env::var("RVF_ORDERED").is_ok() { p.ordered = true; }
         let cfg = HistCfg
         {
             scenario: p.scenario.clone(),
@@ -405,39 +409,42 @@ fn check(id: &str, tier: &str) -> i32
         {
             rep.assume("commands are deterministic functions of their declared sources (mini-shell cat); distinct writes carry distinct mtimes (strict clock)");
             let mut plans = vec![];
-            for (sc, q, t) in vec![(scen::s1_chain(), 6, 9), (scen::s3_multi(), 6, 9), (scen::s2_diamond(), 5, 8), (scen::s4_twins(), 5, 8), (scen::s5_variants(), 6, 9), (scen::s8_failures(), 5, 8), (scen::s10_bundle(), 6, 8), (scen::s11_three(), 5, 7)]
+            for (sc, q, t) in vec![(scen::s1_chain(), 6, 9), (scen::s3_multi(), 6, 9), (scen::s2_diamond(), 5, 8), (scen::s4_twins(), 5, 8), (scen::s5_variants(), 6, 9), (scen::s8_failures(), 5, 8), (scen::s10_bundle(), 6, 8), (scen::s11_three(), 5, 7), (scen::s16_big(), 4, 6), (scen::s13_binary(), 5, 7), (scen::s18_empty(), 6, 8), (scen::s19_aside(), 8, 10)]
             {
                 let mut p = plan(sc, tiered(tier, q, t));
                 p.secs = secs;
                 plans.push(p);
             }
-            if thorough { let mut p = plan(scen::s1_chain_xyz(), 7); p.secs = secs; plans.push(p); }
+            if thorough { let mut p = plan(scen::s1_chain_xyz(), 7); p.secs = secs; plans.push(p); let mut p = plan(scen::s14_five(), 6); p.secs = secs; plans.push(p); } else { let mut p = plan(scen::s14_five(), 4); p.secs = secs; plans.push(p); }
             run_hist_plans(&mut rep, id, plans);
         },
         "C02" =>
         {
             rep.assume("as C01; the must-not-run obligation is asserted only when the harness's own record shows an earlier successful execution on identical sources, the needed contents were in the cache before the build, and no cache content is needed by two targets at once");
             let mut plans = vec![];
-            for (sc, q, t) in vec![(scen::s1_chain(), 6, 9), (scen::s3_multi(), 6, 8), (scen::s2_diamond(), 5, 8), (scen::s4_twins(), 6, 8), (scen::s5_variants(), 6, 9), (scen::s11_three(), 5, 7), (scen::s10_bundle(), 6, 8), (scen::s8_failures(), 5, 7), (scen::s12_multiline_failure(), 4, 6)]
+            for (sc, q, t) in vec![(scen::s1_chain(), 6, 9), (scen::s3_multi(), 6, 8), (scen::s2_diamond(), 5, 8), (scen::s4_twins(), 6, 8), (scen::s5_variants(), 6, 9), (scen::s11_three(), 5, 7), (scen::s10_bundle(), 6, 8), (scen::s8_failures(), 5, 7), (scen::s12_multiline_failure(), 4, 6), (scen::s18_empty(), 6, 8), (scen::s19_aside(), 8, 10)]
             {
                 let mut p = plan(sc, tiered(tier, q, t));
                 p.secs = secs;
                 plans.push(p);
             }
-            if thorough { let mut p = plan(scen::s1_chain_xyz(), 7); p.secs = secs; plans.push(p); }
+            if thorough { let mut p = plan(scen::s1_chain_xyz(), 7); p.secs = secs; plans.push(p); let mut p = plan(scen::s14_five(), 6); p.secs = secs; plans.push(p); } else { let mut p = plan(scen::s14_five(), 4); p.secs = secs; plans.push(p); }
             run_hist_plans(&mut rep, id, plans);
         },
         "C07" | "C08" =>
         {
-            rep.assume("strict clock (distinct writes carry distinct mtimes); commands write atomically and deterministically; a failing command writes nothing");
+            rep.assume("strict clock (distinct writes carry distinct mtimes) except for the S17b plan, which uses the coarse clock (one tick per user action or ruler invocation); commands write atomically; `false` and a failed `test -f` guard write nothing");
             let mut plans = vec![];
-            for (sc, q, t) in vec![(scen::s1_chain(), 6, 9), (scen::s3_multi(), 6, 8), (scen::s4_twins(), 6, 9), (scen::s5_variants(), 6, 9), (scen::s6_exec(), 6, 9), (scen::s8_failures(), 6, 9)]
+            for (sc, q, t) in vec![(scen::s1_chain(), 6, 9), (scen::s3_multi(), 6, 8), (scen::s4_twins(), 6, 9), (scen::s5_variants(), 6, 9), (scen::s6_exec(), 6, 9), (scen::s8_failures(), 6, 9), (scen::s16_big(), 4, 6), (scen::s18_empty(), 6, 8), (scen::s19_aside(), 8, 10)]
             {
                 let mut p = plan(sc, tiered(tier, q, t));
                 p.secs = secs;
                 plans.push(p);
             }
-            if thorough { let mut p = plan(scen::s1_chain_xyz(), 7); p.secs = secs; plans.push(p); }
+            if thorough { let mut p = plan(scen::s1_chain_xyz(), 7); p.secs = secs; plans.push(p); let mut p = plan(scen::s14_five(), 6); p.secs = secs; plans.push(p); } else { let mut p = plan(scen::s14_five(), 4); p.secs = secs; plans.push(p); }
+            // coarse clock (files written in one build share a modification time), a command that can fail
+            // without touching its outputs, byte-identical twins: partial recovery followed by a failure
+            { let mut p = plan(scen::s17b_failing_twins3(), tiered(tier, 12, 13)); p.clock = ClockModel::Coarse; p.ordered = false; p.secs = secs; plans.push(p); }
             run_hist_plans(&mut rep, id, plans);
             // all explored schedules (end states of C03-C06) and all crash points of C11
             let cases: Vec<SchedCase> = schedeng::success_cases(tier).into_iter().filter(|c| !c.name.starts_with("chain3")).collect();
@@ -448,7 +455,7 @@ fn check(id: &str, tier: &str) -> i32
         {
             rep.assume("scope (goal's rule and its ancestors) is computed from the scenario structure, not from ruler's sorter; commands are exempt");
             let mut plans = vec![];
-            for (sc, q, t) in vec![(scen::s9_scope(), 5, 8), (scen::s3_multi(), 5, 8), (scen::s8_failures(), 5, 8)]
+            for (sc, q, t) in vec![(scen::s9_scope(), 5, 8), (scen::s3_multi(), 5, 8), (scen::s8_failures(), 5, 8), (scen::s15_repeated(), 4, 6)]
             {
                 let mut p = plan(sc, tiered(tier, q, t));
                 p.secs = secs;
@@ -497,9 +504,9 @@ fn check(id: &str, tier: &str) -> i32
             for clock in [ClockModel::Strict, ClockModel::Coarse]
             {
                 for (sc, q, t) in vec![(scen::s3_c18(), 10, 14), (scen::s4_c18(), 8, 12), (scen::s1_chain(), 6, 8), (scen::s3_multi(), 5, 8),
-                    (scen::s4_twins(), 6, 8), (scen::s5_variants(), 5, 8), (scen::s2_diamond(), 5, 7), (scen::s6_exec(), 6, 9)]
+                    (scen::s4_twins(), 6, 8), (scen::s5_variants(), 5, 8), (scen::s2_diamond(), 5, 7), (scen::s6_exec(), 6, 9), (scen::s17_c18_failing_twins(), 12, 14)]
                 {
-                    let saturating = sc.name.ends_with("-c18");
+                    let saturating = sc.name.ends_with("-c18") || sc.name.starts_with("S17-c18");
                     let mut p = plan(sc, tiered(tier, q, t));
                     p.clock = clock;
                     p.paired = true;
@@ -514,7 +521,7 @@ fn check(id: &str, tier: &str) -> i32
         {
             rep.assume("Built = the rule's command is in this build's command log; Recovered = a rename from .ruler/cache onto the target; Up-to-date = no mutation touched the target");
             let mut plans = vec![];
-            for (sc, q, t) in vec![(scen::s1_chain(), 6, 9), (scen::s3_multi(), 6, 8), (scen::s4_twins(), 6, 8), (scen::s6_exec(), 6, 8), (scen::s8_failures(), 6, 8), (scen::s11_three(), 6, 8), (scen::s10_bundle(), 6, 8)]
+            for (sc, q, t) in vec![(scen::s1_chain(), 6, 9), (scen::s3_multi(), 6, 8), (scen::s4_twins(), 6, 8), (scen::s6_exec(), 6, 8), (scen::s8_failures(), 6, 8), (scen::s11_three(), 6, 8), (scen::s10_bundle(), 6, 8), (scen::s18_empty(), 6, 8)]
             {
                 let mut p = plan(sc, tiered(tier, q, t));
                 p.secs = secs;
@@ -539,7 +546,7 @@ fn check(id: &str, tier: &str) -> i32
             run_sched_plans(&mut rep, id, cases, phases(tier), Oracles::only("C04"));
             // follow-up histories (repair the cause, build again; break it again)
             let mut plans = vec![];
-            for (sc, q, t) in vec![(scen::s8_failures(), 6, 9), (scen::s1_chain(), 5, 8), (scen::s12_multiline_failure(), 5, 7)]
+            for (sc, q, t) in vec![(scen::s8_failures(), 6, 9), (scen::s1_chain(), 5, 8), (scen::s12_multiline_failure(), 5, 7), (scen::s15_repeated(), 4, 5), (scen::s18_empty(), 6, 8)]
             {
                 let mut p = plan(sc, tiered(tier, q, t));
                 p.secs = secs;
